@@ -412,6 +412,20 @@ def heading_in_tight_item(text: str) -> bool:
         return False
 
 
+def loose_list_in_tight_item(text: str) -> bool:
+    """a tight list one of whose items holds a loose list (as its first or a later block)"""
+    def walk(t):
+        if t["t"] == "List" and t.get("tight"):
+            for it in t.get("c", []):
+                if any(k["t"] == "List" and not k.get("tight") for k in it.get("c", [])):
+                    return True
+        return any(walk(k) for k in t.get("c", []))
+    try:
+        return walk(mdast.doc_tree(text))
+    except Exception:
+        return False
+
+
 def structure_preserved(doc: str, width: int, semantic: bool) -> bool:
     """C01 on one input (used as a precondition by the document-level oracles of other properties: a case on which the
     plain formatting pass already changes the structure belongs to C01 and its listed findings, not to them)"""
